@@ -7,7 +7,7 @@ use cgv_core::conv::*;
 use cgv_core::fw::{Case, Clause};
 use cgv_core::gen::{self, Rng, Tier};
 use cgv_core::model::*;
-use cgv_core::sc::{Ck, Sc};
+use cgv_core::sc::{Ck, Rat, Sc};
 use cgv_core::{clause, clause_q};
 
 fn new2<S: Sc>(a: M<S, 2>) -> Matrix2<S> {
@@ -65,6 +65,35 @@ macro_rules! dim {
             }
             pub fn g_mm(rng: &mut Rng, tier: Tier) -> Case {
                 gen_n(rng, tier, 2 * N * N)
+            }
+            /// products whose factors are within 2^-k of the identity, or tiny / huge
+            /// (a field has no "negligible" elements: I + 2^-60 E is not I)
+            pub fn g_mm_scaled(rng: &mut Rng, tier: Tier) -> Case {
+                let mut c = gen_n(rng, Tier::Quick, 2 * N * N);
+                let _ = tier;
+                let k = rng.range(20, 60) as u32;
+                let which = rng.below(4);
+                c.class = which as u16;
+                for idx in 0..N * N {
+                    let (col, row) = (idx / N, idx % N);
+                    let id = if col == row { 1i64 } else { 0 };
+                    let near = |r: Rat| -> Rat {
+                        // identity + r * 2^-k
+                        let d = r.d << k;
+                        Rat::new(id * d + r.n, d)
+                    };
+                    match which {
+                        0 => c.r[N * N + idx] = near(c.r[N * N + idx]),          // B near identity
+                        1 => c.r[idx] = near(c.r[idx]),                          // A near identity
+                        2 => c.r[idx] = Rat::new(c.r[idx].n, c.r[idx].d << k),   // A tiny
+                        _ => {
+                            c.r[idx] = Rat::new(c.r[idx].n << (k / 3), c.r[idx].d);                     // A large
+                            c.r[N * N + idx] = Rat::new(c.r[N * N + idx].n, c.r[N * N + idx].d << k);   // B tiny
+                        }
+                    }
+                }
+                c.nontrivial = true;
+                c
             }
             pub fn g_ring(rng: &mut Rng, tier: Tier) -> Case {
                 gen_n(rng, tier, 3 * N * N + 2 * N + 1)
@@ -549,6 +578,9 @@ pub fn clauses() -> Vec<Clause> {
         clause!("mul_mat2", EP_MM, d2::g_mm, mul_mat2),
         clause!("mul_mat3", EP_MM, d3::g_mm, mul_mat3),
         clause!("mul_mat4", EP_MM, d4::g_mm, mul_mat4),
+        clause!("mul_mat2_scaled", EP_MM, d2::g_mm_scaled, mul_mat2, weight = 0.5, classes = 4),
+        clause!("mul_mat3_scaled", EP_MM, d3::g_mm_scaled, mul_mat3, weight = 0.5, classes = 4),
+        clause!("mul_mat4_scaled", EP_MM, d4::g_mm_scaled, mul_mat4, weight = 0.5, classes = 4),
         clause!("elementwise2", EP_EL, d2::g_elem, elementwise2),
         clause!("elementwise3", EP_EL, d3::g_elem, elementwise3),
         clause!("elementwise4", EP_EL, d4::g_elem, elementwise4),
